@@ -6,9 +6,10 @@ CONSTANTS Keys = {1, 2, 3}
           IsSet = TRUE
           None <- NoneNil
           Rej = FALSE
+          Nones = {}
           EK = 0
 VIEW View
 ACTION_CONSTRAINT DumpT
 INVARIANTS Bounded NoDup DomOK SetOK RefuseOK
-PROPERTIES FirstAtHead LastAtTail PlainAppends PlainKeeps UpdateKeepsKeys OthersKeepOrder EvictOpposite SortPermutes RemoveExact LRUMoves
+PROPERTIES FirstAtHead LastAtTail PlainAppends PlainKeeps UpdateKeepsKeys OthersKeepOrder EvictOpposite SortPermutes RemoveExact LRUMoves NoneIsInert
 CHECK_DEADLOCK FALSE
